@@ -137,6 +137,9 @@ theorem zero_value_total :
 theorem copied_decls_complete : copyUnhandled = [] ∧ copyMissing = [] :=
   ⟨WireP.C15.copy_total, WireP.C15.copy_complete⟩
 
+/-- the tables this rests on were read off the sources in this run (not placeholders) -/
+example : 50 ≤ WireV.Generated.astNodes.length ∧ WireV.Generated.zeroCases ≠ [] := by decide
+
 /-! ## non-vacuity: the accepted two-set program of `WireP.Props.Pipeline` (six calls) -/
 
 example : (∀ (p : Nat) c, exCalls[p]? = some c → ∀ a ∈ c.args, a < [0].length + p) ∧
